@@ -361,28 +361,33 @@ Section Same.
     else if poly_degree o l <? 0 then Some []
     else pow_go sq mulself (Z.to_nat (bitlen e)) e (poly_one o).
 
-  (* fn batch_multiply: while products.len() != 1 { products = products.chunks(2).map(multiply or clone) } *)
-  Fixpoint chunks2_mul (ps : list (list F)) : option (list (list F)) :=
+  (* fn batch_multiply: while products.len() != 1 { products = products.chunks(2).map(multiply or clone) }.
+     The `_with` forms take the pairwise product as a parameter (used by the proofs: any total, correct `mult`). *)
+  Fixpoint chunks2_mul (mult : list F -> list F -> option (list F)) (ps : list (list F)) : option (list (list F)) :=
     match ps with
     | a :: b :: r =>
-        match poly_multiply a b, chunks2_mul r with Some p, Some t => Some (p :: t) | _, _ => None end
+        match mult a b, chunks2_mul mult r with Some p, Some t => Some (p :: t) | _, _ => None end
     | _ => Some ps
     end.
-  Fixpoint batch_go (fuel : nat) (ps : list (list F)) : option (list F) :=
+  Fixpoint batch_go (mult : list F -> list F -> option (list F)) (fuel : nat) (ps : list (list F)) : option (list F) :=
     match ps with
     | [p] => Some p
     | _ => match fuel with
            | O => None
-           | S f => match chunks2_mul ps with None => None | Some ps' => batch_go f ps' end
+           | S f => match chunks2_mul mult ps with None => None | Some ps' => batch_go mult f ps' end
            end
     end.
+  Definition poly_batch_multiply_with (mult : list F -> list F -> option (list F)) (factors : list (list F))
+    : option (list F) :=
+    match factors with [] => Some (poly_one o) | _ => batch_go mult (length factors) factors end.
   Definition poly_batch_multiply (factors : list (list F)) : option (list F) :=
-    match factors with [] => Some (poly_one o) | _ => batch_go (length factors) factors end.
+    poly_batch_multiply_with poly_multiply factors.
 
   (* fn par_batch_multiply with num_threads = nt:
      while len != 1 { chunk_size = max(2, len / nt); products = products.par_chunks(chunk_size).map(batch_multiply) }
      (par_chunks(..).map(f).collect() = map f (chunks ..): rayon's indexed collect preserves order - trusted) *)
-  Fixpoint par_batch_go (nt : Z) (fuel : nat) (ps : list (list F)) : option (list F) :=
+  Fixpoint par_batch_go (batch : list (list F) -> option (list F)) (nt : Z) (fuel : nat) (ps : list (list F))
+    : option (list F) :=
     match ps with
     | [p] => Some p
     | _ => match fuel with
@@ -390,14 +395,17 @@ Section Same.
            | S f =>
                if nt <=? 0 then None else                     (* division by zero; NonZeroUsize in the code *)
                let chunk_size := Z.max 2 (zlen ps / nt) in
-               match map_opt poly_batch_multiply (chunks chunk_size ps) with
+               match map_opt batch (chunks chunk_size ps) with
                | None => None
-               | Some ps' => par_batch_go nt f ps'
+               | Some ps' => par_batch_go batch nt f ps'
                end
            end
     end.
+  Definition poly_par_batch_multiply_with (batch : list (list F) -> option (list F)) (nt : Z)
+             (factors : list (list F)) : option (list F) :=
+    match factors with [] => Some (poly_one o) | _ => par_batch_go batch nt (length factors) factors end.
   Definition poly_par_batch_multiply (nt : Z) (factors : list (list F)) : option (list F) :=
-    match factors with [] => Some (poly_one o) | _ => par_batch_go nt (length factors) factors end.
+    poly_par_batch_multiply_with poly_batch_multiply nt factors.
 End Same.
 
 (* ------------------------------------------------------------------ VERSION SWITCHES
